@@ -262,7 +262,7 @@ fn enumerate(tier: Tier, idx: u32, of: u32, cx: &mut Cx) -> CaseResult {
         return Ok(());
     }
     let (opts, tree) = crate::probes::many_hunks_tree(10_012);
-    let sc = Scenario { initial: tree, prefix: vec![], edits: vec![], opts, id_spread: 1 };
+    let sc = Scenario { initial: tree, prefix: vec![], edits: vec![], opts, id_spread: 1, headless_band: 0 };
     let sub = cx.dir("many-hunks");
     std::fs::create_dir_all(sub.join("r")).unwrap();
     let mut cx2 = crate::engine::sub_cx(cx, sub.clone());
